@@ -63,7 +63,7 @@ static int streq(const char* a, const char* b) { return a && b && strcmp(a, b) =
 static uint8_t pool[512]; static size_t pool_used;
 static ref_span_t pool_put(const void* p, size_t n) { ref_span_t s; s.off = (uint32_t)pool_used; s.len = (uint32_t)n; if (n) memcpy(pool + pool_used, p, n); pool_used += n; return s; }
 static ref_span_t pool_str(const char* s) { return pool_put(s, strlen(s)); }
-static const char* const NAMES[8] = {"schema", "n1", "n2", "n3", "n4", "n5", "n6", "n7"};
+static const char* const NAMES[8] = {"schema", "n1", "x.n1", "n3", "a.b.n3", "n5", "n6.", "n7"};     /* names may contain dots; a lookup is by the whole stored name */
 static const int MIX[8] = {REF_TYPE_INT32, REF_TYPE_INT64, REF_TYPE_BYTE_ARRAY, REF_TYPE_DOUBLE, REF_TYPE_INT32, REF_TYPE_FIXED_LEN_BYTE_ARRAY, REF_TYPE_INT96, REF_TYPE_BOOLEAN};
 
 static ref_w_file D; static ref_pq_file F; static ref_meta_wopts WO;
